@@ -75,7 +75,10 @@ def apply_cases(draw):
     preload = draw(st.dictionaries(st.sampled_from(["t2:semantic", "x", "y", "z"]), st.integers(1, 3), max_size=4))
     cm_kind = draw(st.sampled_from(["real", "real", "real", "raising", "absent"]))
     state_shape = draw(st.sampled_from(["dict", "dict", "attr"]))
-    return {"deltas": deltas, "store": store_kind, "batch": batch, "singles": singles, "version": version, "turn": turn,
+    # t4.cache.enabled only decides whether the orchestrator CREATES a manager; one that is attached to the state is
+    # read and written by T2 regardless, so busting must not depend on the flag
+    cache_enabled = draw(st.sampled_from([None, None, True, False, False]))
+    return {"cache_enabled": cache_enabled, "deltas": deltas, "store": store_kind, "batch": batch, "singles": singles, "version": version, "turn": turn,
             "every": every, "bust": bust, "namespaces": namespaces, "preload": preload, "cm": cm_kind, "state": state_shape}
 
 
@@ -133,6 +136,8 @@ def check_apply(case, rec=None):
         t4over = {"snapshot_every_n_turns": case["every"], "snapshot_dir": snapdir, "cache_bust_mode": case["bust"]}
         if case["namespaces"] is not None:
             t4over["cache"] = {"namespaces": list(case["namespaces"])}
+        if case.get("cache_enabled") is not None:
+            t4over.setdefault("cache", {})["enabled"] = bool(case["cache_enabled"])
         cfg = world.validated_cfg({"t4": t4over})
         ctx = world.make_ctx(cfg, agent="A", turn_id=case["turn"])
         deltas = [_pd(d) for d in case["deltas"]]
